@@ -3,8 +3,7 @@
 (* and C20_PQ.  Case: given.kind = "uf" | "pq".                                          *)
 EXTENDS TraceKit, C20_UF, C20_PQ, FiniteSets
 
-VARIABLES ci, ei, st, nj, ne
-vars == <<ci, ei, st, nj, ne>>
+VARIABLES ci, ei, st, nj, ns, ne
 
 InitState(c) == IF c.given.kind = "uf" THEN Empty ELSE PQEmpty
 
@@ -85,19 +84,6 @@ JudgePQ(s, e, fam) ==
 Judge(c, s, e) == IF c.given.kind = "uf" THEN JudgeUF(s, e, c.given.family) ELSE JudgePQ(s, e, c.given.family)
 
 (* ---------------- walker ---------------- *)
-Init == ci = 1 /\ ei = 0 /\ nj = 0 /\ ne = 0
-        /\ st = IF NCases = 0 THEN Empty ELSE InitState(Cases[1])
-Step == /\ ci <= NCases /\ ei < Len(Cases[ci].events)
-        /\ LET c == Cases[ci]
-               e == c.events[ei + 1]
-               r == Judge(c, st, e)
-           IN /\ (IF r.ok THEN TRUE ELSE Mismatch(c.id, ei + 1, e.op, r.clause, r.cls, r.detail))
-              /\ st' = r.next
-        /\ ei' = ei + 1 /\ nj' = nj + 1 /\ ne' = ne + 1 /\ ci' = ci
-NextCase == /\ ci <= NCases /\ ei = Len(Cases[ci].events)
-            /\ ci' = ci + 1 /\ ei' = 0 /\ UNCHANGED <<nj, ne>>
-            /\ st' = IF ci + 1 <= NCases THEN InitState(Cases[ci + 1]) ELSE Empty
-            /\ (IF ci + 1 <= NCases THEN TRUE ELSE Done(NCases, ne, nj, 0))
-Next == Step \/ NextCase
-Spec == Init /\ [][Next]_vars
+W == INSTANCE Walker
+Spec == W!Spec
 =============================================================================
